@@ -20,6 +20,8 @@ structure Case where
   crash : Option (Nat × Nat)
   /-- executed by the harness built with `background_rotation` -/
   bg : Bool := false
+  /-- family `bg-stream`: the real `SizeTrigger` with this limit decides instead of the script -/
+  size : Option Nat := none
 
 def decOp (s : String) : Option Op :=
   match splitOnChar ':' s with
@@ -35,7 +37,8 @@ def decOp (s : String) : Option Op :=
 def decCase : List String → Option Case
   | [mode, pre, pat, b, c, file, init, ops, faults, crash] => do
     let mode ← decBool mode
-    let pre ← decBool pre
+    let size : Option Nat := if pre.startsWith "s" then (pre.drop 1).toNat? else none
+    let pre ← (if size.isSome then some false else decBool pre)
     let pattern ← decStr pat
     let base ← decNat b
     let count ← decNat c
@@ -47,7 +50,7 @@ def decCase : List String → Option Case
     if !hasHole pattern || count = 0 then none else
     pure { cfg := { mode := if mode then .append else .truncate, pre, file,
                     roller := mkRoller id id pattern base count },
-           init, ops, faults, crash }
+           init, ops, faults, crash, size }
   | _ => none
 
 def obstaclePath (r : RollerCfg) : Path :=
@@ -148,7 +151,20 @@ structure BgM where
   /-- contents left under temp names by failed or interrupted rotation threads, oldest first -/
   stranded : List Bytes
 
+def bytesLt : Bytes → Bytes → Bool
+  | [], [] => false
+  | [], _ :: _ => true
+  | _ :: _, [] => false
+  | a :: as, b :: bs => if a < b then true else if b < a then false else bytesLt as bs
+
+def insertBytes (x : Bytes) : List Bytes → List Bytes
+  | [] => [x]
+  | y :: ys => if bytesLt x y then x :: y :: ys else y :: insertBytes x ys
+
+/-- the temp names carry numbers that do not reflect the age of the files (a freed number is reused
+within the same second): they are shown ranked by content -/
 def encSnapBg (file : Path) (d : Disk) (stranded : List Bytes) : String :=
+  let stranded := stranded.foldl (fun acc x => insertBytes x acc) []
   let temps := (List.range stranded.length).zip stranded |>.map
     (fun (i, y) => (tempPrefix file ++ (toString i).toList, y))
   encSnap ⟨d.files ++ temps⟩
@@ -174,8 +190,22 @@ def runModelBg (c : Case) : BgM → List Op → List String
       let st := restartOp cfg m.app.disk
       ("rs:ok|-|" ++ encSnapBg cfg.file st.disk m.stranded) :: runModelBg c { m with app := st } rest
     | .quiesce => ("q|-|" ++ encSnapBg cfg.file m.app.disk m.stranded) :: runModelBg c m rest
-    | .obstacle | .unobstacle => "unsupported|-|-" :: runModelBg c m rest
+    | .obstacle =>
+      let top := r.nameOf (r.base + r.count - 1)
+      if m.app.disk.has top || m.app.disk.has (obstaclePath r) then
+        ("o:skip|-|" ++ encSnapBg cfg.file m.app.disk m.stranded) :: runModelBg c m rest
+      else
+        let d := m.app.disk.set (obstaclePath r) [120]
+        ("o:placed|-|" ++ encSnapBg cfg.file d m.stranded) :: runModelBg c { m with app := { m.app with disk := d } } rest
+    | .unobstacle =>
+      let d := m.app.disk.erase (obstaclePath r)
+      ("u|-|" ++ encSnapBg cfg.file d m.stranded) :: runModelBg c { m with app := { m.app with disk := d } } rest
     | .append rec answer =>
+      -- `SizeTrigger` (post-process): `len_estimate() > limit` after the record is written; the
+      -- estimate is the size of the file (it is re-read from the metadata at every reopen)
+      let answer := match c.size with
+        | some l => decide ((((rotationStart cfg rec m.app).disk.get? cfg.file).getD []).length > l)
+        | none => answer
       if !answer then
         let (res, st) := appendOp cfg (fun _ => false) false rec m.app
         (renderRes res ++ "|-|-") :: runModelBg c { m with app := st } rest
@@ -183,7 +213,9 @@ def runModelBg (c : Case) : BgM → List Op → List String
         let n := m.attempts
         let start := rotationStart cfg rec m.app
         let d1 := moveFile cfg.file tmp start.disk
-        let fault : Nat → Bool := fun k => c.faults.contains (n, k)
+        -- the real obstacle (non-empty directory at the top archive name) makes the first step fail
+        -- inside the rotation thread: the error is only printed, the temp file stays
+        let fault : Nat → Bool := faultOf c n d1
         let ff := firstFault fault (nSteps r)
         let crashK : Option Nat := match c.crash with
           | some (cn, k) => if cn = n && k < nSteps r && (match ff with | some f => k ≤ f | none => true) then some k else none
@@ -241,14 +273,15 @@ def handleBg (c : Case) (implObs : String) : Answer :=
   let modelL := ("rs:ok|-|" ++ encSnapBg c.cfg.file st0.disk []) ::
     runModelBg c { app := st0, attempts := 0, stranded := [] } c.ops
   let model := encList "/" modelL
-  let tags := "bg" :: (if !c.faults.isEmpty || c.crash.isSome then ["bg-fault-or-crash"] else []) ++ tagsOf c modelL
+  let tags := "bg" :: (if !c.faults.isEmpty || c.crash.isSome || c.ops.contains .obstacle then ["bg-fault-or-crash"] else []) ++
+    (if c.size.isSome then ["bg-stream"] else []) ++ tagsOf c modelL
   match mapM? decOpObs (decList '/' implObs) with
   | none => { model, spec := "FAIL:unreadable observation;sig=C08/observation", tags }
   | some os =>
     match pairOps (Op.restart :: c.ops) os with
     | none => { model, spec := "FAIL:observation length;sig=C08/observation", tags }
     | some pairs =>
-      let spec := match checkBgHistory c.cfg (tempPrefix c.cfg.file) { written := [], closed := [], active := [] } pairs with
+      let spec := match checkBgHistory c.cfg (tempPrefix c.cfg.file) c.size { written := [], closed := [], active := [] } pairs with
         | none => "ok"
         | some (clause, sig) => "FAIL:" ++ clause ++ ";sig=" ++ sig
       { model, spec, tags }
